@@ -28,6 +28,9 @@ SPECIAL_F = ["00000000", "80000000", "7f800000", "ff800000", "7fc00000", "000000
 def rand_f(rng, lo=-1e3, hi=1e3):
     """mostly-valid payload: finite, moderate magnitude; a few exact small integers and halves"""
     r = rng.random()
+    if r < 0.02:     # values below f32::EPSILON (an "approximately zero" shortcut must not swallow them), subnormals, -0
+        return rng.choice(["33000000", "b3000000", "2e000000", "ae000000", "00000001", "80000001", "00400000", "80000000",
+                           f2h(rng.uniform(-1.1e-7, 1.1e-7))])
     if r < 0.15:
         return f2h(float(rng.randint(-8, 8)))
     if r < 0.25:
@@ -43,6 +46,8 @@ def rand_pos_f(rng, lo=1e-2, hi=1e3):
 def log_dt(rng, lo_ns=1_000, hi_ns=7_200_000_000_000):
     """sampling interval: log-uniform 1 µs .. hours, in ns"""
     import math
+    if lo_ns <= 1_000 and rng.random() < 0.08:      # very short ODD intervals: integer halving / truncation of ns shows up here
+        return rng.choice([1, 3, 5, 7, 9, 11, 101, 999, 1001, 2001])
     return max(1, int(math.exp(rng.uniform(math.log(lo_ns), math.log(hi_ns)))))
 
 I64_MIN = -(2 ** 63)
